@@ -86,7 +86,9 @@ def specs(draw, tier):
         r = max(1, round(r * 16)) / 16
     d = {"position": pos, "radius": gen.r6(r)}
     if cls != "SphericalDroplet":
-        d["interface_width"] = draw(st.sampled_from([None, 0.0, 0.0, gen.r6(r * 0.1), gen.r6(r * 0.5), gen.r6(size * 0.02)]))
+        # (also interfaces that are hundreds or thousands of times thinner than the radius: the profile is then evaluated far out
+        # in its tails for nearly every cell)
+        d["interface_width"] = draw(st.sampled_from([None, 0.0, 0.0, gen.r6(r * 0.1), gen.r6(r * 0.5), gen.r6(size * 0.02), gen.r6(r * 0.002), gen.r6(r * 0.0004)]))
     if cls.startswith("Perturbed"):
         n_amp = draw(st.integers(1, 8)) if cls == "PerturbedDroplet2D" else (draw(st.sampled_from([1, 3, 5, 8, 15])) if cls == "PerturbedDroplet3D" else draw(st.integers(1, 4)))
         raw = [draw(st.floats(-1, 1, **finite)) if draw(st.booleans()) else 0.0 for _ in range(n_amp)]
@@ -300,7 +302,8 @@ class C03(Property):
             order = np.argsort(dist.ravel(), kind="stable")
             v = data.ravel()[order] * (1 if vmax > vmin else -1)
             ctx.require(bool(np.all(np.diff(v) <= 1e-12 * scale)), "not-monotonic", "value increases with the distance from the centre")
-            ctx.require(bool(np.all(np.abs(data - ideal)[fin] <= 1e-9 * scale)), "profile", f"profile deviates from vmin + (vmax - vmin)(1 + tanh((R - d)/w))/2 by {np.abs(data - ideal)[fin].max()}")
+            dev = np.abs(data - ideal)[fin]
+            ctx.require(bool(np.all(dev <= 1e-9 * scale)), "profile", f"profile deviates from vmin + (vmax - vmin)(1 + tanh((R - d)/w))/2 by {dev.max() if dev.size else float('nan')}")
         nontriv_extra = False
         # --- roll equivariance on periodic Cartesian axes -------------------------------------
         if fam == "cart" and any(spec["shift"]):
